@@ -60,8 +60,12 @@ CLAIMS = {
         "isTU is invariant under every table entry 'iff' (including the GF(3) pivot on ternary matrices) and monotone under submatrices; the "
         "same for the regularity oracle (via signability), for balancedness and for the series-parallel reduction oracle (via C08's "
         "confluence); transposition duality graphic/cographic, network/conetwork; 1-sum iff and 2-sum closure of TU (from C12); algebra of "
-        "the table (composition of steps). Not proved, classical matroid theory trusted: pivot invariance for regular/graphic/network/SP, "
-        "line insertion for graphic/network, 2-sum closure for classes other than TU, delta/Y-sum closure of regularity (Seymour). Tie: instances "
+        "the table (composition of steps); C10Pivot: regularity of a 0/1 matrix is invariant under a GF(2) pivot (a TU signing pivots to a TU "
+        "signing of the binary pivot), lifted to step lists with pivots; C10Sums: 1-sum iff and binary 2-sum closure of regularity; C10Graphic: the brute-force graphic / network oracles decide exactly "
+        "'some tree realises every column as a (signed) path' (sound and complete), and that reading is invariant under permutation, zero / "
+        "unit / duplicate line insertion (both signs for network), line negation (network), monotone under submatrices incl. row contraction, "
+        "for graphic, cographic, network, conetwork and for step lists without pivots. Not proved, classical matroid theory trusted: pivot "
+        "invariance for graphic/network/SP, 2-sum closure for graphic/network/SP, delta/Y/3-sum closure of regularity (Seymour). Tie: instances "
         "far beyond oracle size (network matrices of random digraphs, R10/R12, 1-/2-sums, corrupted entries; up to ~100 lines quick, ~300 "
         "thorough) with seeded composite transformations applied through CMRchrmatTranspose/Permute/Slice/BinaryPivot/TernaryPivot: the "
         "transformed matrix must equal the model's and all ten recognizers' verdicts on M and g(M) must satisfy the table; k-sums composed by "
